@@ -51,7 +51,7 @@ def main(tier, replay=None):
     if exe is None:
         return c.finish(TRUSTED, no_input_break="extraction/OCaml build of the Keys model failed: " + err[-1500:])
 
-    n = 64 if tier == "quick" else 1200
+    n = 64 if tier == "quick" else 900
     impl = os.path.join(c.workdir, "impl.txt")
     if replay:
         rp = json.load(open(replay))
